@@ -46,7 +46,9 @@ func c16(r *Report) {
 	}
 
 	r.Guard("C16.R1", "whoever reads the snapshot body in har removes the transfer coding the snapshot keeps", func() {
-		for _, n := range []string{"NewRequest", "NewResponse", "postData", "Logger.RecordRequest", "Logger.RecordResponse"} {
+		// (the index of the last transfer coding is in range)
+		lastIndexRule(r, "har")
+		for _, n := range []string{"NewRequest", "NewResponse", "postData", "Logger.RecordRequest", "Logger.RecordResponse", "PostData.UnmarshalJSON", "Content.UnmarshalJSON"} {
 			errorsReturnedRule(r, r.W.Fn("har", n), false)
 		}
 
@@ -64,12 +66,31 @@ func c16(r *Report) {
 						continue
 					}
 					guarded := false
-					for _, cond := range ctrlConds(cr.Block()) {
-						if strings.Contains(cond, "\"chunked\"") && strings.HasSuffix(cond, "=true") {
-							guarded = true
+					lenOK := true
+					for _, ce := range ctrlEdges(cr.Block()) {
+						b, isB := ce.If.Cond.(*ssa.BinOp)
+						if !isB {
+							continue
+						}
+						for _, side := range []ssa.Value{b.X, b.Y} {
+							if k, isK := constString(side); isK && k == "chunked" && ((b.Op == token.EQL && ce.Taken) || (b.Op == token.NEQ && !ce.Taken)) {
+								guarded = true
+							}
+						}
+						// a guard on the number of transfer codings admits a single one
+						isLenV := func(v ssa.Value) bool {
+							c, y := unwrapConv(v).(*ssa.Call)
+							if !y {
+								return false
+							}
+							bi, y := c.Call.Value.(*ssa.Builtin)
+							return y && bi.Name() == "len"
+						}
+						if rel, adm := constCmpAdmits(ce, isLenV, 1); rel && !adm {
+							lenOK = false
 						}
 					}
-					if !guarded {
+					if !guarded || !lenOK {
 						continue
 					}
 					// every consumer of the body reads through a value that can be the chunked reader
@@ -503,6 +524,125 @@ func c16(r *Report) {
 		}
 	})
 
+	r.Guard("C16.R2", "derived fields: redirect URL for 3xx only, cookie expiry when set, post data exactly for requests with a body", func() {
+		// RedirectURL is filled for status 300..399 and for no other
+		okRed := false
+		for _, in := range instrs(nres) {
+			st, ok := in.(*ssa.Store)
+			if !ok {
+				continue
+			}
+			fa, ok := st.Addr.(*ssa.FieldAddr)
+			if !ok || fieldObj(fa).Name() != "RedirectURL" {
+				continue
+			}
+			okRed = true
+			for _, sc := range []int64{200, 299, 300, 302, 399, 400, 404} {
+				reach := true
+				n := 0
+				for _, ce := range ctrlEdges(st.Block()) {
+					ev := &miniEval{leaf: func(v ssa.Value) (int64, bool) {
+						if ld, isLd := v.(*ssa.UnOp); isLd {
+							if f2, isFa := ld.X.(*ssa.FieldAddr); isFa && fieldObj(f2).Name() == "StatusCode" {
+								return sc, true
+							}
+						}
+						return 0, false
+					}}
+					c, okc := ev.Bool(ce.If.Cond)
+					if !okc {
+						continue
+					}
+					n++
+					if c != ce.Taken {
+						reach = false
+					}
+				}
+				if n == 0 || reach != (sc >= 300 && sc < 400) {
+					okRed = false
+				}
+			}
+		}
+		r.Decide("path", "M/har.NewResponse: RedirectURL is filled for 3xx responses and for no other", okRed, "the guards evaluate to 300 <= status < 400 on {200, 299, 300, 302, 399, 400, 404}", "the redirect URL is recorded for the wrong range of status codes", nres.Pos())
+		// a cookie's expiry is recorded when, and only when, the cookie has one
+		if ck := w.Fn("har", "cookies"); ck != nil {
+			okExp := false
+			for _, a := range allocsOf(ck, P("har")+".Cookie") {
+				for _, st := range litFieldStores(a)["Expires8601"] {
+					for _, l := range resolveAll(st.Val) {
+						c, isC := l.(*ssa.Call)
+						if !isC || calleeName(c) != "(time.Time).Format" {
+							continue
+						}
+						for _, ce := range ctrlEdges(c.Block()) {
+							cond, taken := ce.If.Cond, ce.Taken
+							if u, isU := cond.(*ssa.UnOp); isU && u.Op == token.NOT {
+								cond, taken = u.X, !taken
+							}
+							if isCallValue(cond, "(time.Time).IsZero") && !taken {
+								okExp = true
+							}
+						}
+					}
+				}
+			}
+			r.Decide("path", "M/har.cookies: Expires8601 is the formatted expiry of a cookie that has one", okExp, "Expires.Format(RFC3339) on the !IsZero() edge", "the expiry of a cookie is not recorded (or recorded for cookies without one, as year 1)", ck.Pos())
+		}
+		// post data is skipped exactly for a request without a body
+		{
+			okPD := false
+			var first *ssa.BinOp
+			for _, in := range instrs(pd) {
+				b, ok := in.(*ssa.BinOp)
+				if !ok || first != nil {
+					continue
+				}
+				if ld, isLd := b.X.(*ssa.UnOp); isLd {
+					if fa, isFa := ld.X.(*ssa.FieldAddr); isFa && fieldObj(fa).Name() == "ContentLength" {
+						first = b
+					}
+				}
+			}
+			if first != nil {
+				okPD = true
+				for _, cl := range []int64{-1, 0, 1, 9} {
+					for _, nte := range []int64{0, 1} {
+						out, okD := decide(first.Block(), func(v ssa.Value) (bool, bool) {
+							b, isB := v.(*ssa.BinOp)
+							if !isB {
+								return false, false
+							}
+							k, isK := constInt(b.Y)
+							if !isK {
+								return false, false
+							}
+							if ld, isLd := b.X.(*ssa.UnOp); isLd {
+								if fa, isFa := ld.X.(*ssa.FieldAddr); isFa && fieldObj(fa).Name() == "ContentLength" {
+									return cmpHolds(b.Op, cl, k), true
+								}
+							}
+							if c, isC := b.X.(*ssa.Call); isC {
+								if bi, isBi := c.Call.Value.(*ssa.Builtin); isBi && bi.Name() == "len" {
+									return cmpHolds(b.Op, nte, k), true
+								}
+							}
+							return false, false
+						})
+						if !okD || out == nil {
+							okPD = false
+							continue
+						}
+						_, skipped := out.Instrs[len(out.Instrs)-1].(*ssa.Return)
+						if skipped != (cl <= 0 && nte == 0) {
+							okPD = false
+						}
+					}
+				}
+			}
+			r.Decide("path", "M/har.postData: post data is omitted exactly for a request without a body", okPD, "truth table over ContentLength {-1,0,1,9} x len(TransferEncoding) {0,1}: skip iff length <= 0 and no transfer coding", "the no-body test has another truth table: a chunked upload (length -1) or a body with a known length is logged without post data, or an empty request gets one", pd.Pos())
+		}
+	})
+
 	r.Guard("C16.R2", "list conversions carry nothing from one element to the next", func() {
 		// in the converters that turn a list of the message (cookies, headers, query and form
 		// parameters) into HAR records, a field of a record is computed from the element of
@@ -555,6 +695,58 @@ func c16(r *Report) {
 	})
 
 	r.Guard("C16.R5", "body capture follows the configured content-type options", func() {
+		// the four content-type options: an opt-in list captures exactly the listed types, a
+		// skip list everything but them
+		for _, oc := range []struct {
+			ctor string
+			hit  bool
+		}{{"PostDataLoggingForContentTypes", true}, {"SkipPostDataLoggingForContentTypes", false}, {"BodyLoggingForContentTypes", true}, {"SkipBodyLoggingForContentTypes", false}} {
+			cf := w.Fn("har", oc.ctor)
+			if cf == nil {
+				r.Undecided("M/har."+oc.ctor, "UNRESOLVED")
+				continue
+			}
+			// the predicate is the innermost function literal that returns a bool
+			var pred *ssa.Function
+			var find func(f *ssa.Function)
+			find = func(f *ssa.Function) {
+				for _, a := range f.AnonFuncs {
+					if res := a.Signature.Results(); res.Len() == 1 && res.At(0).Type().String() == "bool" {
+						pred = a
+					}
+					find(a)
+				}
+			}
+			find(cf)
+			if pred == nil {
+				r.Undecided("M/har."+oc.ctor+": predicate", "UNRESOLVED")
+				continue
+			}
+			r.Touch(pred)
+			okPol := true
+			nret := 0
+			for _, ret := range returns(pred) {
+				k, isK := constBool(ret.Results[0])
+				if !isK {
+					okPol = false
+					continue
+				}
+				nret++
+				onMatch := false
+				for _, ce := range ctrlEdges(ret.Block()) {
+					if isCallValue(ce.If.Cond, "strings.HasPrefix") && ce.Taken {
+						onMatch = true
+					}
+					if u, isU := ce.If.Cond.(*ssa.UnOp); isU && u.Op == token.NOT && isCallValue(u.X, "strings.HasPrefix") && !ce.Taken {
+						onMatch = true
+					}
+				}
+				if onMatch != (k == oc.hit) {
+					okPol = false
+				}
+			}
+			r.Decide("path", "M/har."+oc.ctor+": the predicate answers "+fmt.Sprint(oc.hit)+" for a listed content type and "+fmt.Sprint(!oc.hit)+" otherwise", okPol && nret >= 2, "the return behind the prefix match is "+fmt.Sprint(oc.hit)+", the other one "+fmt.Sprint(!oc.hit), "the option's predicate is inverted (or constant): bodies of the listed types are skipped and the others captured, or the list is ignored", pred.Pos())
+		}
 		lg := w.Named("har", "Logger")
 		for _, s := range []struct{ rec, ctor, opt string }{{"RecordRequest", "M/har.NewRequest", "postDataLogging"}, {"RecordResponse", "M/har.NewResponse", "bodyLogging"}} {
 			f := w.method(lg, s.rec)
